@@ -104,6 +104,21 @@ impl BucketSegmentWriter {
                 .join(format!("{segment_id:010}"))
                 .join(SegmentKind::Events.file_name());
 
+            // A crash inside `create` leaves the preallocated file without its header (the
+            // header is written and synced before any record can be): that segment was never
+            // used. Recreate it instead of failing on the missing magic bytes forever.
+            let mut header = [0u8; SEGMENT_HEADER_SIZE];
+            let blank = match fs::File::open(&events_path)?.read_exact_at(&mut header, 0) {
+                Ok(()) => header.iter().all(|byte| *byte == 0),
+                Err(err) if err.kind() == std::io::ErrorKind::UnexpectedEof => true,
+                Err(err) => return Err(err.into()),
+            };
+            if blank {
+                fs::remove_file(&events_path)?;
+                return Self::create(events_path, bucket_id, segment_size, compression)
+                    .map(|writer| (bucket_segment_id, writer));
+            }
+
             Self::open(events_path, segment_size, compression)
                 .map(|writer| (bucket_segment_id, writer))
         } else {
